@@ -800,6 +800,7 @@ func (p *Parser) evaluateImports(ctx context) ([]Statement, error) {
 		}
 	}
 	statements := []Statement{}
+	privateFuncs := map[string]bool{} // Names of the private functions which have been taken over so far.
 
 	// Add functions add variables.
 	for _, statement := range statementsTemp {
@@ -822,6 +823,10 @@ func (p *Parser) evaluateImports(ctx context) ([]Statement, error) {
 
 			if _, exists = ctx.functions[name]; !exists && definedFunction.Public() {
 				ctx.functions[name] = definedFunction
+			} else if !exists {
+				// A private function is not visible to the importing file but it must also only be taken over once.
+				exists = privateFuncs[name]
+				privateFuncs[name] = true
 			}
 		}
 
